@@ -374,7 +374,9 @@ class Replayer:
     kinds = st['kind']
     # -- outcome
     if out_kind != spec_out['k']:
-      raise Divergence('outcome', f'spec {spec_out["k"]} vs impl {out_kind}: {ret!r}')
+      d = Divergence('outcome', f'spec {spec_out["k"]} vs impl {out_kind}: {ret!r}')
+      d.spec_out, d.impl_out = spec_out['k'], out_kind
+      raise d
     alive = [n for n in range(1, len(kinds) + 1) if kinds[n - 1] != 'free']
     # -- content
     for n in alive:
@@ -505,8 +507,29 @@ class Replayer:
     return self.match_value(specv, pyv)
 
   # ---- one behaviour -----------------------------------------------------------
-  def replay(self, steps) -> Optional[dict]:
-    """Returns None when the behaviour conforms, else a divergence record."""
+  def replay(self, steps, budget_s: float = 30.0) -> Optional[dict]:
+    """Returns None when the behaviour conforms, else a divergence record.
+
+    A behaviour that does not finish within `budget_s` seconds (a call that never returns) is a
+    divergence of clause 'hang'."""
+    import signal  # pylint: disable=import-outside-toplevel
+    self._cur = 0
+
+    def on_alarm(signum, frame):
+      raise Divergence('hang', f'the call did not return within {budget_s}s')
+
+    old = signal.signal(signal.SIGALRM, on_alarm)
+    signal.setitimer(signal.ITIMER_REAL, budget_s)
+    try:
+      return self._replay(steps)
+    except Divergence as d:
+      return {'step': self._cur, 'act': steps[self._cur].state['act'] if self._cur < len(steps) else ['?'],
+              'clause': d.clause, 'detail': d.detail}
+    finally:
+      signal.setitimer(signal.ITIMER_REAL, 0)
+      signal.signal(signal.SIGALRM, old)
+
+  def _replay(self, steps) -> Optional[dict]:
     st0 = steps[0].state
     for n, k in enumerate(st0['kind'], start=1):
       if k != 'free':
@@ -517,6 +540,7 @@ class Replayer:
       except Divergence as d:
         return {'step': 0, 'act': ['Init'], 'clause': d.clause, 'detail': d.detail}
       for i, step in enumerate(steps[1:], start=1):
+        self._cur = i
         st = step.state
         act = st['act']
         pre_alive = set(self.obj)
@@ -529,7 +553,8 @@ class Replayer:
           self.bind_new(st, pre_alive, ret)
           self.compare(st, out_kind, ret)
         except Divergence as d:
-          return {'step': i, 'act': act, 'clause': d.clause, 'detail': d.detail}
+          return {'step': i, 'act': act, 'clause': d.clause, 'detail': d.detail,
+                  'spec_out': getattr(d, 'spec_out', st['out']['k']), 'impl_out': getattr(d, 'impl_out', None)}
         self.hit(act[0] + ':' + st['out']['k'])
       return None
     finally:
